@@ -256,6 +256,16 @@ where
 /// happen. Chains like `a add b add c` count too: they build a tree that deep.
 pub const MAX_NESTING_DEPTH: usize = 256;
 
+/// Deepest syntax tree the parser hands out (every later pass recurses over it).
+pub const MAX_TREE_DEPTH: usize = 2 * MAX_NESTING_DEPTH;
+
+// A node of the tree for the iterative depth measurement.
+enum TreeNode<'ast> {
+    Block(BlockRef<'ast>),
+    Stmt(StmtRef<'ast>),
+    Expr(ExprRef<'ast>),
+}
+
 impl<'src: 'ast, 'ast> Parser<'src, 'ast> {
     /// Creates a new [`Parser`] instance.
     pub fn new(mut lexer: Lexer<'ast, 'src>, arena: &'ast Arena) -> Self {
@@ -291,6 +301,80 @@ impl<'src: 'ast, 'ast> Parser<'src, 'ast> {
         self.errors.emit(span, Severity::Error, "syntax", error.as_str(), labels);
     }
 
+    /// Span of the first node found more than `limit` levels below the program block.
+    /// Walks the tree with an explicit stack: the point is not to recurse.
+    fn first_node_deeper_than(root: BlockRef<'ast>, limit: usize) -> Option<Span> {
+        let mut pending = vec![(TreeNode::Block(root), 0usize)];
+        while let Some((node, depth)) = pending.pop() {
+            let below = depth + 1;
+            match node {
+                TreeNode::Block(block) => {
+                    if depth > limit {
+                        return Some(block.span);
+                    }
+                    pending.extend(block.stmts.iter().map(|stmt| (TreeNode::Stmt(*stmt), below)));
+                }
+                TreeNode::Stmt(stmt) => match stmt {
+                    Stmt::FunctionDef { body, .. } | Stmt::Block { block: body, .. } => {
+                        pending.push((TreeNode::Block(*body), below));
+                    }
+                    Stmt::Assign { expr, .. }
+                    | Stmt::AssignExisting { expr, .. }
+                    | Stmt::Expression { expr, .. }
+                    | Stmt::Return { expr: Some(expr), .. } => {
+                        pending.push((TreeNode::Expr(*expr), below));
+                    }
+                    Stmt::AssignIndex { target, expr, .. } => {
+                        pending.push((TreeNode::Expr(*target), below));
+                        pending.push((TreeNode::Expr(*expr), below));
+                    }
+                    Stmt::If { cond, then_b, else_b, .. } => {
+                        pending.push((TreeNode::Expr(*cond), below));
+                        pending.push((TreeNode::Block(*then_b), below));
+                        if let Some(else_b) = else_b {
+                            pending.push((TreeNode::Block(*else_b), below));
+                        }
+                    }
+                    Stmt::Loop { cond, body, .. } => {
+                        pending.push((TreeNode::Expr(*cond), below));
+                        pending.push((TreeNode::Block(*body), below));
+                    }
+                    Stmt::Return { expr: None, .. } | Stmt::Break { .. } | Stmt::Continue { .. } => {}
+                },
+                TreeNode::Expr(expr) => {
+                    if depth > limit {
+                        return Some(expr.span());
+                    }
+                    match expr {
+                        Expr::Index { array, index, .. } => {
+                            pending.push((TreeNode::Expr(*array), below));
+                            pending.push((TreeNode::Expr(*index), below));
+                        }
+                        Expr::Binary { lhs, rhs, .. } => {
+                            pending.push((TreeNode::Expr(*lhs), below));
+                            pending.push((TreeNode::Expr(*rhs), below));
+                        }
+                        Expr::Call { callee, args, .. } => {
+                            pending.push((TreeNode::Expr(*callee), below));
+                            pending.extend(args.args.iter().map(|arg| (TreeNode::Expr(*arg), below)));
+                        }
+                        Expr::Array { elements, .. } => {
+                            pending.extend(elements.iter().map(|e| (TreeNode::Expr(*e), below)));
+                        }
+                        Expr::Unary { expr, .. } => pending.push((TreeNode::Expr(*expr), below)),
+                        Expr::Member { object, .. } => pending.push((TreeNode::Expr(*object), below)),
+                        Expr::String { .. }
+                        | Expr::Number(..)
+                        | Expr::Var(..)
+                        | Expr::Bool(..)
+                        | Expr::Null(..) => {}
+                    }
+                }
+            }
+        }
+        None
+    }
+
     /// Goes one level deeper. Past [`MAX_NESTING_DEPTH`] it reports the error once,
     /// skips to the end of the input so every caller unwinds, and returns false.
     fn descend(&mut self) -> bool {
@@ -324,9 +408,26 @@ impl<'src: 'ast, 'ast> Parser<'src, 'ast> {
     /// Lexer errors are merged into the parser's diagnostics so the caller
     /// gets a single unified error report for both lexical and syntax errors.
     pub fn parse_program(&mut self) -> (BlockRef<'ast>, &Diagnostics<'ast>) {
-        let block_ref = self.parse_program_body();
+        let mut block_ref = self.parse_program_body();
         if self.cur.token != Token::EOF {
             self.emit_error(self.cur.span, SyntaxError::TrailingTokensAfterProgramEnd, Vec::new());
+        }
+        // The counter above bounds the parser's own recursion. Postfix and operator
+        // chains at several nesting levels can still add up to a much deeper tree
+        // (`[[..][0][0]..][0][0]..`), so the finished tree is measured as well.
+        if !self.too_deep
+            && let Some(span) = Self::first_node_deeper_than(block_ref, MAX_TREE_DEPTH)
+        {
+            self.emit_error(
+                span,
+                SyntaxError::NestingTooDeep,
+                vec![Label {
+                    span,
+                    message: ArenaCow::Borrowed("Dis code nest pass wetin I fit follow"),
+                }],
+            );
+            // Nobody gets to walk the deep tree.
+            block_ref = self.alloc(Block { stmts: &[], span: block_ref.span });
         }
         // Lexer errors go first (earlier in the source) then syntax errors.
         let mut merged = mem::replace(&mut self.lexer.errors, Diagnostics::new(self.arena));
